@@ -141,7 +141,11 @@ CHECKS = {
               'offset; the header parses back; decode(pdu(m)) = m is a theorem for the five body-less classes (every sequence '
               'number, every status member), for submit_sm_resp/deliver_sm_resp (every ASCII id up to 64 characters), for the three bind '
               'requests (all fields SMPP allows) and the three bind responses (sc_interface_version absent or 0..255): 13 of 15 classes. '
-              'For submit_sm/deliver_sm the round trip is NOT yet a theorem: it is decided by the octet-for-octet '
+              'For submit_sm/deliver_sm the round trip is a theorem for messages without optional parameters whose text travels in '
+              'short_message, for every in-range assignment of the seventeen mandatory fields and every alphabet for which the codec '
+              'and the SMPP time format round trip (sm_round_trip_short, those facts as explicit hypotheses; sm_round_trip_gsm with none '
+              'left: default alphabet GSM 03.38, automatic encoding, any text over the alphabet up to 254 octets). With optional '
+              'parameters, message_payload or a UDH the round trip is NOT a theorem: it is decided by the octet-for-octet '
               'correspondence of the model encoder and decoder with the code plus the round-trip predicate on generated '
               'messages (all alphabets, boundary lengths 0/254/255, TLVs of every value type, both time forms, payload).'),
         note=COMMON_NOTE + 'CPython codecs other than gsm0338/gsm0338_packed/ucs2/ascii/latin_1 and registered error handlers are opaque (not judged). Text outside the chosen alphabet under a lossy error mode, and an explicit gsm0338 encoding differing from the configured default, are outside the round-trip domain (see DESIGN.md).',
@@ -151,9 +155,11 @@ CHECKS = {
               'to the code): all 65,536 TLV tags have the value type and width of 5.3.2; command ids and data_coding values; '
               'header layout; body-less PDUs and submit_sm_resp/deliver_sm_resp are exactly the reference PDU; the body of '
               'submit_sm/deliver_sm lays out the seventeen mandatory fields in the order, widths and C-octet termination of '
-              '4.4.1/4.6.1 for every in-range assignment; integer TLVs are tag/length/value big-endian. NOT theorems (decided '
-              'by correspondence + an independent Python encoder): bind bodies, string TLVs, choice of data_coding and text '
-              'octets, and the decoding direction for foreign PDU shapes (TLV permutations, omitted response bodies, '
+              '4.4.1/4.6.1 for every in-range assignment; integer TLVs are tag/length/value big-endian; decoding direction: a body '
+              'laid out as the specification prescribes - by whomever - is decoded to the field values it was built from, text in '
+              'short_message or in a message_payload parameter (decode_mandatory_fields, decode_message_payload). NOT theorems '
+              '(decided by correspondence + an independent Python encoder): bind bodies, string TLVs, choice of data_coding and text '
+              'octets, and the rest of the decoding direction (TLV permutations, omitted response bodies, '
               'sc_interface_version, UDH 8/16-bit, NUL-terminated octet strings). Known finding udh-other-ie-first (a UDH whose '
               'first element is not the concatenation element is misread; kernel-checked on the model, replayed on the code).'),
         note=COMMON_NOTE + 'Two hand transcriptions of SMPP 3.4 (Spec/Smpp34.lean, tools/spec/smpp.py) and of 3GPP TS 23.038 are the reference; an error common to both and to the code would go unseen.',
